@@ -92,7 +92,7 @@ int32_t jls_rd_open(struct jls_rd_s ** instance, const char * path) {
     GOE(jls_core_scan_signals(core));
 
     if (jls_core_rd_chunk_end(core)) {
-        return JLS_ERROR_EMPTY;  // no chunk found!
+        GOE(JLS_ERROR_EMPTY);  // no chunk found!
     }
     int64_t pos = jls_raw_chunk_tell(core->raw);
 
@@ -152,7 +152,7 @@ int32_t jls_rd_open(struct jls_rd_s ** instance, const char * path) {
     for (uint16_t i = 0; i < JLS_SIGNAL_COUNT; ++i) {
         struct jls_core_signal_s * signal_info = &core->signal_info[i];
         if ((signal_info->signal_def.signal_id == i) && (JLS_SIGNAL_TYPE_FSR == signal_info->signal_def.signal_type)) {
-            ROE(jls_fsr_open(&signal_info->track_fsr, signal_info));
+            GOE(jls_fsr_open(&signal_info->track_fsr, signal_info));
         }
     }
 
